@@ -394,6 +394,57 @@ func runC17(c *Ctx) {
 			}
 		}
 		c.Check(cnt == 1, "O4", "RET", funcKey(syncForPods)+": live consumers are selected by pod phase", syncForPods.Pos(), "phase ∈ {Running, Pending}", "the sync no longer selects live consumers by phase")
+		// ---- O12: and by nothing else — a pod of the group is left out of the consumers only because it is the
+		// reservation pod (its namespace) or because its phase is not a live one. (A pod with a deletion timestamp
+		// whose containers still run is a live consumer: dropping it lets the reservation pod be deleted under it.)
+		nFile := 0
+		for _, dh := range p.deepFind(syncForPods, func(in ssa.Instruction) bool {
+			mu, ok := in.(*ssa.MapUpdate)
+			return ok && strings.Contains(typeKey(mu.Map.Type()), "[]*k8s.io/api/core/v1.Pod")
+		}, 2) {
+			nFile++
+			files := func(in ssa.Instruction) bool { return in == dh.In }
+			excused := func(fs FactSet) bool {
+				_, ok := fs.find(func(f Fact) bool {
+					t := f.T
+					if t.Op == "bin" && len(t.Args) == 2 && (t.Args[0].lastField() == "Namespace" || t.Args[1].lastField() == "Namespace") {
+						return (t.Name == "==") == f.Pol
+					}
+					if t.Op == "bin" && len(t.Args) == 2 && (t.Args[0].lastField() == "Phase" || t.Args[1].lastField() == "Phase") {
+						return (t.Name == "==") != f.Pol
+					}
+					if !f.Pol && t.Op == "call" && strings.Contains(t.Name, "Contains") {
+						for _, a := range t.Args {
+							if a.lastField() == "Phase" {
+								return true
+							}
+						}
+					}
+					return false
+				})
+				return ok
+			}
+			gfx := fx
+			edgeOK := func(from, to *ssa.BasicBlock) bool {
+				return !gfx.edgeEstablishesAll(from, to, func(fs FactSet) bool { return gfx.acceptWithExpansion(fs, excused) })
+			}
+			var ok bool
+			var path []int
+			if loopHeaderOf(dh.In.Block()) != nil {
+				ok, path = everyIterationPasses(dh.In, files, edgeOK)
+			} else if len(dh.Chain) > 0 {
+				// the loop body was moved into a helper: the helper files the pod on every unexcused path, and
+				// every iteration of the caller's loop calls it
+				g := dh.In.Parent()
+				_, pth, found := reachAvoiding([]cfgPos{entryPos(g)}, isReturn, files, edgeOK)
+				cs := dh.Chain[len(dh.Chain)-1]
+				ok2, pth2 := everyIterationPasses(cs, func(in ssa.Instruction) bool { return in == cs }, edgeOK)
+				ok, path = !found && ok2, append(pth, pth2...)
+			}
+			c.Check(ok, "O12", "MPT", funcKey(syncForPods)+": every pod of the group that is not the reservation pod and is Running or Pending is counted as a consumer", instrPos(dh.In), "an iteration skips the filing only behind a namespace or phase test",
+				"a pod of the group can be left out of the live consumers for a reason other than its namespace or phase ("+pathStr(path)+"): a pod that still runs (e.g. in its graceful-termination period) does not keep the reservation pod alive, the reservation is deleted under it and the GPU is handed to another group")
+		}
+		c.Floor("O12", "MPT consumer filing sites", nFile, 1)
 		if delCons != nil {
 			for _, in := range instrsIn(delCons, isEffect) {
 				d, ok := hasFact(fx.FactsAt(in), func(f Fact) bool {
@@ -439,6 +490,32 @@ func runC17(c *Ctx) {
 				"a pod update is not treated as a completion for another reason (e.g. the old phase was not Running): a consumer that goes from Pending straight to Failed/Succeeded does not trigger the sync of its GPU group and its reservation pod stays without a live consumer")
 		}
 		c.Floor("O3", "RET non-completion paths", len(paths), 2)
+	}
+
+	// ---- O11 (event filter): the pod controller's event filter lets every pod of this scheduler through — it may say
+	// "no" only for an object that is not a pod or for another scheduler's pod. (The consumer carries its GPU-group
+	// label before it is bound: a filter on the node name, the phase, ... drops the delete/completion event of a
+	// labelled pod that never got bound, and its reservation pod stays.)
+	if rel := c.Anchor("O11", "pkg/binder/controllers", "PodReconciler", "isRelevantPod"); rel != nil {
+		paths := fx.retPaths(rel, 0, WantFalse)
+		for i, rp := range paths {
+			okSet := func(fs FactSet) bool {
+				_, ok := fs.find(func(f Fact) bool {
+					t := f.T
+					if !f.Pol && t.Op == "extract" && t.Name == "1" && t.Args[0].Op == "typeassert" {
+						return true
+					}
+					if t.Op == "bin" && len(t.Args) == 2 && t.Args[0].lastField() == "SchedulerName" && t.Args[1].lastField() == "SchedulerName" {
+						return (t.Name == "==") != f.Pol
+					}
+					return false
+				})
+				return ok
+			}
+			c.Check(fx.acceptWithExpansion(rp.Facts, okSet), "O11", "RET", fmt.Sprintf("%s false path#%d", funcKey(rel), i), rp.Pos, "not a pod, or another scheduler's pod",
+				"the binder's pod event filter drops a pod of this scheduler for another reason ("+trunc(rp.Facts.String(), 160)+"): the delete/completion event of a GPU-sharing consumer in that state never reaches the reservation sync and its reservation pod stays without a live consumer")
+		}
+		c.Floor("O11", "RET refusals of the event filter", len(paths), 2)
 	}
 
 	// ---- O5: the consumer label is written on the caller's pod object
